@@ -1101,7 +1101,11 @@ func (r *run) callBuiltin(caller *frame, callpos token.Pos, fn *ssa.Builtin, arg
 	case "ssa:deferstack":
 		return &caller.defers
 	}
-	panic(unsupported{"unknown built-in: " + fn.Name()})
+	where := ""
+	if caller != nil && caller.fn != nil {
+		where = " (in " + caller.fn.String() + ")"
+	}
+	panic(unsupported{"unknown built-in: " + fn.Name() + where})
 }
 
 // ---------------------------------------------------------------------------
